@@ -80,7 +80,37 @@ def check(run):
                                      "stop right after the first final packet (per the specification table), nothing read beyond it" % (short, list(t)))
         else:
             run.nontrivial.add((short, t))
-    run.evaluations += len(cases)
+    # the firmware upload: every data request answered exactly once with the requested block (also an EMPTY block at / behind the
+    # end of the file) before the next packet is read, the final packet acknowledged, nothing read beyond it (round-4 seeded change)
+    import os
+    import shutil
+    from . import c11
+    scratch = "/tmp/zvt_verif_c05_%d" % os.getpid()
+    shutil.rmtree(scratch, ignore_errors=True)
+    os.makedirs(scratch)
+    try:
+        ic, mc, ex, why = c11.build_cases(run.rng, th, scratch, 8 if th else 4, 40 if th else 20)
+        try:
+            umo = vlib.run_sharded(drv, mc, run.workdir, "c05_upload_model")
+            uio = vlib.run_sharded(seqb, ic, run.workdir, "c05_upload_impl")
+        except vlib.HangFound as h:
+            run.violation(kind="script", case=h.case[:3000], expected="the upload ends after its final packet", observed="Hang (20 s watchdog)", how_found="oracle")
+            return vlib.finish(run, trusted_base=TB)
+    finally:
+        shutil.rmtree(scratch, ignore_errors=True)
+    nb = 0
+    for c, m, i, e, w in zip(mc, umo, uio, ex, why):
+        if m != i:
+            diffs.append((c[:3000], m[:1500], i[:1500]))
+        if i != e:
+            nb += 1
+            if nb <= 3:
+                run.violation(kind="script", case=c[:400000], expected=e[:400000], observed=i[:400000], how_found="oracle",
+                              detail="firmware upload (%s): every data request answered exactly once with the requested block before the next packet is read" % w)
+        else:
+            run.nontrivial.add(("upload", hash(c)))
+    run.evaluations += len(cases) + len(ic)
+    run.coverage["upload_histories"] = len(ic)
     run.coverage["sequences"] = len({m[0] for m in meta})
     run.coverage["script_depth_exhaustive"] = 5 if th else 4
     run.nontrivial = {str(x) for x in run.nontrivial}
@@ -90,9 +120,13 @@ def check(run):
     if any(not v.get("no_failing_input_found") for v in run.violations):
         run.violations = [v for v in run.violations if not v.get("no_failing_input_found")]
     return vlib.finish(run, trusted_base=TB, assumptions=["async-stream's try_stream! semantics (effects before each yield; `?` yields one Err and ends)",
-                                                           "an in-memory peer stands for the TCP socket", "the firmware upload's trace is decided by C11"])
+                                                           "an in-memory peer stands for the TCP socket", "the firmware upload's content (manifest, file ids, block contents) is C11's; here its acknowledgement discipline"])
 
 
 def replay(path):
+    import json
+    if json.load(open(path)).get("case", "").startswith("uploadm"):
+        from . import c11
+        return c11.replay(path)          # re-creates the payload directory and re-runs the real upload
     from ..common import impl_only
     return impl_only("harness", "seq", path)
